@@ -209,6 +209,19 @@ fn crafted_cases(rep: &Report) {
         let e = ProgramEntry::new(ops);
         check_one(&cfg, None, &e, None, &["crafted: per-metric dimension key collides with a member name (F4)"], rep);
     }
+    // one name twice under the SAME per-metric dimension set, the pairs listed in another order
+    // (a set is a set), with two and with three pairs; and the valid neighbour (another value)
+    for (second, label) in [
+        (vec![("Type", "Baz"), ("Kind", "Foo")], "crafted: same name twice under one dimension set listed in two orders"),
+        (vec![("Kind", "Foo"), ("Type", "Baz")], "crafted: same name twice under one dimension set"),
+    ] {
+        let e = ProgramEntry::new(vec![split(), POp::Value("lat".into(), m(vec![("Kind", "Foo"), ("Type", "Baz")])), POp::Value("lat".into(), m(second))]);
+        rep.eval();
+        check_one(&cfg, None, &e, None, &[label], rep);
+    }
+    let e = ProgramEntry::new(vec![split(), POp::Value("lat".into(), m(vec![("A", "1"), ("B", "2"), ("C", "3")])), POp::Value("other".into(), m(vec![])), POp::Value("lat".into(), m(vec![("C", "3"), ("A", "1"), ("B", "2")]))]);
+    rep.eval();
+    check_one(&cfg, None, &e, None, &["crafted: same name twice under one three-pair dimension set listed in two orders"], rep);
     // F3 (fixed): all_validations must validate in every profile
     let e = ProgramEntry::new(vec![POp::Value("a".into(), m(vec![])), POp::Value("a".into(), m(vec![]))]);
     rep.eval();
